@@ -15,9 +15,9 @@ def namesSeparated (s : SchemaSet) : Bool :=
     | _ => none
   fields.all fun (k, n) => (fields.filter (fun x => x.1 == k && x.2 == n)).length == 1
 
-partial def genWF (seed : Nat) (cyclic : Bool) (tries : Nat) : SchemaSet × Nat :=
-  let s := Gen.run (seed * 1000 + tries) cyclic
-  if namesSeparated s || tries > 50 then (s, tries) else genWF seed cyclic (tries + 1)
+partial def genWF (seed : Nat) (cyclic small : Bool) (tries : Nat) : SchemaSet × Nat :=
+  let s := Gen.run (seed * 1000 + tries) cyclic small
+  if namesSeparated s || tries > 50 then (s, tries) else genWF seed cyclic small (tries + 1)
 
 def features (s : SchemaSet) : List String :=
   let comps := s.files.flatMap (·.comps)
@@ -31,8 +31,8 @@ def features (s : SchemaSet) : List String :=
   (if selfImport then ["selfimport"] else []) ++ (if cyc then ["cycle"] else []) ++
   (if (Ref.reachable s).length < s.files.length then ["unreachable"] else [])
 
-def writeCase (root : String) (idx : Nat) (seed : Nat) (cyclic : Bool) : IO Unit := do
-  let (s, tries) := genWF seed cyclic 0
+def writeCase (root : String) (idx : Nat) (seed : Nat) (cyclic small : Bool) : IO Unit := do
+  let (s, tries) := genWF seed cyclic small 0
   let dir := s!"{root}/c{idx}"
   IO.FS.createDirAll s!"{dir}/in"
   for f in s.files do
@@ -43,9 +43,9 @@ def writeCase (root : String) (idx : Nat) (seed : Nat) (cyclic : Bool) : IO Unit
     String.join ((Ref.reachable s).map (fun i => s!"reachable={((s.files[i]?).map (·.fileName)).getD ""}\n")))
   IO.FS.writeFile s!"{dir}/ref.obs" (String.join ((Ref.structLines s).map (· ++ "\n")))
 
-def main (seed count : Nat) (root : String) (cyclic : Bool := false) : IO UInt32 := do
+def main (seed count : Nat) (root : String) (cyclic : Bool := false) (small : Bool := false) : IO UInt32 := do
   for i in [0:count] do
-    writeCase root i (seed + i) cyclic
+    writeCase root i (seed + i) cyclic small
   return 0
 
 end ZeepVerif.Driver.SpecGen
